@@ -7,6 +7,16 @@ real EtherCat.roundtrip / sendloop / process_packet on the virtual loop; the
 payload on the wire and the returned tuple are compared with an independent
 little-endian struct reference.
 
+Placements: "every str is a format, everything else is the data for those
+formats" - the formats are joined and the values taken in order wherever they
+stand between the formats.  For the argument lists of one to three (thorough:
+four) format groups every order of the positional arguments that keeps the
+formats in their order and the values in theirs is sent as well (all formats
+first and then all values, values moved across a format boundary, values in
+front of the first format ...); the reference encoding does not depend on the
+placement.  An order in which the trailing-format rule and the number of
+values contradict each other may be refused.
+
 Histories: sequences of two or three requests, one after the other on ONE
 EtherCat object, in which earlier requests may be refused while they are put
 together (a value that does not fit its field - in the first or a later field
@@ -28,8 +38,10 @@ LEVEL = "model_checking"
 RULE = ("single requests: all argument lists of <= 3 (thorough: 4) format "
         "groups from the alphabet, each with values, the last optionally "
         "read-only, x raw-data alphabet (none, counts and byte strings of "
-        "every length 0..8 and 40) x 2 commands; histories: all sequences of "
-        "2-3 requests from the history alphabet (accepted and refused "
+        "every length 0..8 and 40) x 2 commands; placements: for <= 3 "
+        "(thorough: 4) groups every interleaving of the format strings and "
+        "the values that keeps both in their order; histories: all sequences "
+        "of 2-3 requests from the history alphabet (accepted and refused "
         "requests) on one EtherCat object; non-trivial = at least one "
         "request was sent; distinct = distinct argument list / history")
 
@@ -129,6 +141,36 @@ def reference(groups, readonly, data):
     return args, sent_exp, accept
 
 
+def grouped(groups, readonly):
+    """the placement in which every format is directly followed by its own
+    values: a string of 'f' (a format) and 'v' (a value), one per argument"""
+    return "".join("f" + "v" * (0 if readonly and i == len(groups) - 1
+                                else len(vals))
+                   for i, (fmt, vals) in enumerate(groups))
+
+
+def placements(groups, readonly):
+    """every order of the positional arguments that keeps the formats in
+    their order and the values in theirs, the grouped one left out"""
+    g = grouped(groups, readonly)
+    out = []
+    for pos in itertools.combinations(range(len(g)), len(groups)):
+        mask = "".join("f" if i in pos else "v" for i in range(len(g)))
+        if mask != g:
+            out.append(mask)
+    return out
+
+
+def place(args, mask):
+    """the grouped argument list, rearranged as the placement says"""
+    fmts = iter([a for a in args if isinstance(a, str)])
+    vals = iter([a for a in args if not isinstance(a, str)])
+    out = [next(fmts) if c == "f" else next(vals) for c in mask]
+    if len(out) != len(args):
+        raise core.Internal("placement %r does not fit %r" % (mask, args))
+    return out
+
+
 def show(x):
     """JSON-friendly and reversible (see unshow)"""
     if isinstance(x, (bytes, bytearray)):
@@ -159,13 +201,31 @@ def outcome(t):
 
 
 def run_case(case, res):
-    groups, readonly, data, cmd = case
+    """case: (groups, readonly, data, cmd) - the grouped argument list - or
+    (groups, readonly, data, cmd, placement)"""
+    groups, readonly, data, cmd = case[:4]
+    mask = case[4] if len(case) > 4 else None
     args, sent_exp, accept = reference(groups, readonly, data)
     if sent_exp is None:
         raise core.Internal("single cases are meant to be encodable: %r"
                             % (case,))
+    # The reference does not look at the placement.  The one thing that is
+    # tied to a position is the read-only format: "a trailing format without
+    # values".  Where that rule and the number of values contradict each
+    # other - the last argument is a format although there are values for
+    # all formats; the last argument is a value although the last format has
+    # none - the request may be refused (raise, send nothing); if it is
+    # sent, it is judged like every other one.
+    may_refuse = False
+    if mask is not None:
+        args = place(args, mask)
+        may_refuse = isinstance(args[-1], str) != bool(readonly)
+        res.count("placements")
     jcase = dict(args=[a if not isinstance(a, bytes) else a.hex()
                        for a in args], data=data, cmd=cmd)
+    if mask is not None:
+        jcase.update(placement=mask, groups=[fmt for fmt, _ in groups],
+                     readonly=bool(readonly))
     res.count("evaluations")
     loop = vloop.VLoop()
     with loop:
@@ -183,13 +243,22 @@ def run_case(case, res):
         sent = list(tp.sent)
         loop.shutdown()
     kf = None
+    placed = "" if mask is None else \
+        " (formats and values not grouped: all formats joined, all values " \
+        "in order)"
     zero_raw = groups and data is not None and \
         (data == 0 or (not isinstance(data, int) and len(data) == 0))
+    if not sent and may_refuse and out[0] == "error":
+        res.outcomes.add(("placement refused", out[1]))
+        res.count("placements_refused")
+        return
     if not sent:
         res.outcomes.add("not sent " + out[-1] if out[0] == "error"
                          else "not sent")
-        res.violation(jcase, "request sent", out, sig="notsent" + str(out),
-                      note="request not sent")
+        res.violation(jcase, "request sent", out,
+                      sig="notsent" + str(out) + ("" if mask is None
+                                                   else "-placed"),
+                      note="request not sent" + placed)
         return
     res.nontrivial.add(core.digest(jcase))
     res.count("transitions", 2)
@@ -198,9 +267,10 @@ def run_case(case, res):
     if d.data != sent_exp or (d.cmd, d.adp, d.ado, d.idx) != \
             (cmd, 7, 0x120, 3):
         res.violation(jcase, sent_exp.hex(), d.data.hex(),
-                      sig=core.digest(["payload", readonly, data is None]),
+                      sig=core.digest(["payload", readonly, data is None]
+                                      + ["placed"] * (mask is not None)),
                       note="payload on the wire differs from the reference "
-                           "encoding")
+                           "encoding" + placed)
     ok = out[0] == "result" and any(
         type(out[1]) is type(a) and out[1] == a for a in accept)
     res.outcomes.add((out[0], ok))
@@ -209,9 +279,10 @@ def run_case(case, res):
             kf = "C13-empty-raw-data"
         res.violation(jcase, accept[0], out[1:], kf=kf,
                       sig=core.digest(["ret", readonly, bool(groups),
-                                       repr(data)[:6], str(kf)]),
+                                       repr(data)[:6], str(kf)]
+                                      + ["placed"] * (mask is not None)),
                       note="returned value differs from the reference "
-                           "decoding")
+                           "decoding" + placed)
 
 
 def run_history(history, res):
@@ -321,6 +392,35 @@ def cases(ctx):
     return out
 
 
+def placement_cases(ctx):
+    """(groups, readonly, data, cmd, placement): every placement other than
+    the grouped one (which cases() has) of the argument lists of
+    one group               x the whole raw-data alphabet,
+    two groups              x 5 (thorough: 7) kinds of raw data,
+    three groups out of 4 (thorough: 5) with one, two and three values
+                            x without / with raw bytes,
+    thorough: four groups out of 3, without raw data"""
+    g = dict(GROUPS)
+    G = lambda *fmts: [(f, g[f]) for f in fmts]  # noqa: E731
+    if ctx.quick:
+        plan = [(1, GROUPS, DATA),
+                (2, GROUPS, [None, 0, 3, b"", b"abc"]),
+                (3, G("H", "H2xH", "4s", "HBB"), [None, b"abc"])]
+    else:
+        plan = [(1, GROUPS, DATA),
+                (2, GROUPS, SMALL),
+                (3, G("H", "H2xH", "4s", "HBB", "q"), [None, b"abc"]),
+                (4, G("H", "4s", "BI"), [None])]
+    out = []
+    for n, alphabet, datas in plan:
+        for groups in itertools.product(alphabet, repeat=n):
+            for readonly in (False, True):
+                for mask in placements(groups, readonly):
+                    for data in datas:
+                        out.append((groups, readonly, data, 4, mask))
+    return out
+
+
 def refused_requests(ctx):
     """requests that have to be refused: one bad group alone, behind / in
     front of good ones, with and without trailing data; trailing data that
@@ -410,18 +510,24 @@ def work(item, res):
 
 def run(ctx):
     singles = cases(ctx)
+    placed = placement_cases(ctx)
     hist = histories(ctx)
-    items = [("case", c) for c in singles] + [("hist", h) for h in hist]
+    items = [("case", c) for c in singles] + [("case", c) for c in placed] \
+        + [("hist", h) for h in hist]
     res = core.pmap(ctx, work, items)
     res.cov["states"] = len(res.nontrivial)
     res.cov["traces_validated_against_impl"] = res.cov.get("evaluations", 0)
     res.cov["single_requests"] = len(singles)
+    res.cov["placed_requests"] = len(placed)
     res.cov["alphabet"] = dict(
         groups=len(GROUPS), data=len(DATA), bad_groups=len(BAD_GROUPS),
         refused_requests=len(refused_requests(ctx)),
         accepted_requests=len(accepted_requests(ctx)))
     res.sample(dict(args=["H", 0xB2C3, "4s"], data="b''",
                     meaning="one written H, a read-only 4s, empty raw data"))
+    res.sample(dict(args=["H", "I", 0xB2C3, 0xD4E5F607], data=None,
+                    meaning="both formats first, then both values: the six "
+                            "bytes of '<HI' on the wire"))
     res.sample(dict(history=["roundtrip(.., 'HH', 0x1234, 70000)",
                              "roundtrip(.., 'H2xH')"],
                     meaning="a request refused in its second field, then a "
@@ -430,6 +536,13 @@ def run(ctx):
     res.assumptions += [
         "only the last format may be read-only (a format without values "
         "elsewhere is rejected by struct)",
+        "the formats are joined and the values are taken in order wherever "
+        "they stand between the formats (roundtrip's docstring: every str is "
+        "a format, everything else is the data for those formats); only "
+        "where the trailing-format rule and the number of values contradict "
+        "each other (last argument a format although every format has its "
+        "values; last argument a value although the last format has none) "
+        "the request may also be refused - raise and send nothing",
         "with raw data and no formats either the raw bytes or a 1-tuple of "
         "them is accepted as the return value",
         "a request cannot be encoded when struct refuses a group's values "
@@ -454,6 +567,13 @@ def replay(ctx, rep):
         run_history(history, res)
         return res.violations
     byfmt = dict(GROUPS)
+    data = c["data"]
+    if isinstance(data, str):
+        data = bytes.fromhex(data)
+    if "placement" in c:
+        run_case((tuple((fmt, byfmt[fmt]) for fmt in c["groups"]),
+                  c["readonly"], data, c["cmd"], c["placement"]), res)
+        return res.violations
     groups, ro = [], False
     args = c["args"]
     i = 0
@@ -468,8 +588,5 @@ def replay(ctx, rep):
         else:
             i += n
         groups.append((fmt, byfmt[fmt]))
-    data = c["data"]
-    if isinstance(data, str):
-        data = bytes.fromhex(data)
     run_case((tuple(groups), ro, data, c["cmd"]), res)
     return res.violations
